@@ -130,6 +130,9 @@ class Recorder:
     def case(self, case, nontrivial, classes=(), size=0):
         """Count one executed case. `case` must be JSON-able; `classes` feed the histogram."""
         self.evaluations += 1
+        if self.evaluations % 200 == 0:
+            import gc
+            gc.collect()  # a safe point (main thread, between two cases); automatic collection is disabled
         for c in classes:
             self.hist[c] += 1
         if nontrivial:
@@ -234,8 +237,17 @@ def drive(check_case, strategy, n_examples, rec, known, hseed, shrink=True, stat
 
     out = Outcome()
     last = {}
+    # The cyclic garbage collector may run finalisers (generator clean-up that joins threads) at any allocation in
+    # any thread - observed to dead-lock CPython 3.12 inside Thread._bootstrap_inner. Collect only at safe points:
+    # between two cases, in the main thread, when no library thread is running.
+    import gc
+    gc.disable()
+    counter = [0]
 
     def wrapped(case):
+        counter[0] += 1
+        if counter[0] % 25 == 0:
+            gc.collect()
         try:
             check_case(case)
         except Violation as v:
